@@ -370,3 +370,48 @@ def cells(s):
     if isinstance(s, SymArray):
         return list(s._d)
     return list(s)
+
+
+# ---------------------------------------------------------------------------------------------------------------
+# pandas' group-wise sum of a custom ExtensionArray runs through its Python fallback (`alt=np.sum`), which silently drops
+# `min_count` (an all-missing group sums to 0.0 instead of NaN); float columns take the cython path, which honours it.
+# The repository relies on it (`predictions.sum(axis=1, min_count=1)`, `resample(...).sum(min_count=1)`), so for symreal
+# data the group-wise sum is routed through SymArray._reduce, which implements min_count.  Validated in selftest against
+# float frames.
+def _install_groupby_sum_min_count():
+    from pandas.core.groupby.groupby import GroupBy
+    if getattr(GroupBy.sum, "_symv", False):
+        return
+    orig = GroupBy.sum
+
+    def _is_sym(obj):
+        if isinstance(obj, pd.Series):
+            return isinstance(obj.dtype, SymDtype)
+        return any(isinstance(t, SymDtype) for t in obj.dtypes)
+
+    def sum_(self, *args, **kwargs):
+        min_count = kwargs.get("min_count", 0) or 0
+        try:
+            obj = self._obj_with_exclusions
+        except Exception:
+            obj = None
+        if min_count and obj is not None and _is_sym(obj):
+            def one(x):
+                if isinstance(x.dtype, SymDtype):
+                    return x.array._reduce("sum", min_count=min_count)
+                return x.sum(min_count=min_count)
+            out = self.agg(one)
+            if isinstance(out, pd.Series) and isinstance(obj, pd.Series):
+                out = pd.Series(SymArray(list(out.to_numpy(dtype=object))), index=out.index, name=out.name)
+            elif isinstance(out, pd.DataFrame):
+                for c in out.columns:
+                    if isinstance(obj[c].dtype, SymDtype):
+                        out[c] = SymArray(list(out[c].to_numpy(dtype=object)))
+            return out
+        kwargs.pop("skipna", None) if "skipna" in kwargs and "skipna" not in orig.__code__.co_varnames else None
+        return orig(self, *args, **kwargs)
+    sum_._symv = True
+    GroupBy.sum = sum_
+
+
+_install_groupby_sum_min_count()
